@@ -7,13 +7,14 @@
 //! This module parses eBPF assembly language source code.
 
 use combine::error::StreamError;
-use combine::parser::char::{alpha_num, char, digit, hex_digit, spaces, string};
+use combine::parser::char::{alpha_num, char, digit, hex_digit, letter, spaces, string};
 use combine::stream::position::{self};
 use combine::stream::StreamErrorFor;
 #[cfg(feature = "std")]
 use combine::EasyParser;
 use combine::{
-    attempt, between, eof, many, many1, one_of, optional, sep_by, ParseError, Parser, Stream,
+    attempt, between, eof, many, many1, not_followed_by, one_of, optional, sep_by, ParseError, Parser,
+    Stream,
 };
 
 use crate::lib::*;
@@ -75,10 +76,15 @@ where
     I: Stream<Token = char>,
     I::Error: ParseError<I::Token, I::Range, I::Position>,
 {
-    char('r').with(many1(digit())).and_then(|x: String| {
-        x.parse::<i64>()
-            .map_err(|_| StreamErrorFor::<I>::message_static_message("register number out of range"))
-    })
+    // An 'r' followed by a letter starts an identifier, not a register: the mnemonic on the line after an
+    // operand-less instruction ("exit\nrsh64 r1, 1") must not be consumed as a broken register.
+    attempt(char('r').skip(not_followed_by(letter())))
+        .with(many1(digit()))
+        .and_then(|x: String| {
+            x.parse::<i64>().map_err(|_| {
+                StreamErrorFor::<I>::message_static_message("register number out of range")
+            })
+        })
 }
 
 fn operand<I>() -> impl Parser<I, Output = Operand>
